@@ -1535,7 +1535,36 @@ package main
 //@     invariant forall j int :: 0 <= j && j < len(old(sipUri.Parameters)) ==> sipUri.Parameters[j] == old(sipUri.Parameters)[j]
 //@     invariant forall j int :: 0 <= j && j < $i ==> sipUri.Parameters[len(old(sipUri.Parameters)) + j] == kvOfText(split(s, ";")[j])
 
+//@ func (*AddrSpec).Write
+//@   props C14
+//@   uses kvtext addrtext
+//@   modifies W
+//@   ensures text: isType(writer, "*bytes.Buffer") ==> W[refOf(writer)] == old(W[refOf(writer)]) + addrSpecText(as)
+//@   ensures only-this-writer: forall w int :: w != refOf(writer) ==> W[w] == old(W[w])
+
 //@ func (*NameAddr).Write
 //@   props C14
+//@   uses kvtext addrtext
 //@   modifies W
-//@   ensures display-name-verbatim: isType(writer, "*bytes.Buffer") ==> hasPrefix(W[refOf(writer)], old(W[refOf(writer)]) + na.DisplayName + "<") && hasSuffix(W[refOf(writer)], ">")
+//@   ensures text: isType(writer, "*bytes.Buffer") ==> W[refOf(writer)] == old(W[refOf(writer)]) + nameAddrText(na)
+//@   ensures only-this-writer: forall w int :: w != refOf(writer) ==> W[w] == old(W[w])
+
+//@ func (*RouteParam).Write
+//@   props C14
+//@   uses kvtext addrtext
+//@   modifies W
+//@   ensures text: isType(writer, "*bytes.Buffer") ==> W[refOf(writer)] == old(W[refOf(writer)]) + nameAddrText(r.nameAddr) + kvSeqText(";", r.rrParam, len(r.rrParam))
+//@   ensures only-this-writer: forall w int :: w != refOf(writer) ==> W[w] == old(W[w])
+//@   loop 0:
+//@     invariant forall w int :: w != refOf(writer) ==> W[w] == old(W[w])
+//@     invariant 0 <= $i && $i <= len(r.rrParam)
+//@     invariant isType(writer, "*bytes.Buffer") ==> W[refOf(writer)] == old(W[refOf(writer)]) + nameAddrText(r.nameAddr) + kvSeqText(";", r.rrParam, $i)
+
+//@ func (*ViaParam).String
+//@   props C14
+//@   uses kvtext addrtext
+//@   modifies W
+//@   ensures text: result == viaParamText(vp)
+//@   loop 0:
+//@     invariant 0 <= $i && $i <= len(vp.Params)
+//@     invariant W[buf] == viaHeadText(vp) + kvSeqText(";", vp.Params, $i)
